@@ -422,6 +422,7 @@ class Check:
         cov['theorems'] = self.theorems
         cov['known_findings_confirmed'] = self.known_confirmed
         cov['correspondence_disagreements'] = len(self.corr_failures)
+        cov['correspondence_examples'] = self.corr_failures[:5]
         cov['oracle_failures'] = len(self.oracle_failures)
         cov['notes'] = self.notes
         ev = {'property_id': self.pid, 'tier': 'thorough' if self.thorough() else 'quick', 'seed': self.seed,
